@@ -117,6 +117,14 @@ func (w *World) Battery(db walletdb.DB, m *waddrmgr.Manager) map[string]string {
 			bh, err := m.BlockHash(ns, h)
 			out[fmt.Sprintf("blockhash:%d", h)] = fmt.Sprint(bh, " ", errCode(err))
 		}
+		// the hash that is pruned when the tip is recorded (tip - 10000) and its neighbours
+		for h := w.Height - 10001; h <= w.Height-9999; h++ {
+			if h <= 0 {
+				continue
+			}
+			bh, err := m.BlockHash(ns, h)
+			out[fmt.Sprintf("blockhash:%d", h)] = fmt.Sprint(bh, " ", errCode(err))
+		}
 		out["watchonly"] = fmt.Sprint(m.WatchOnly())
 		return nil
 	})
